@@ -6,7 +6,7 @@ import gen_common
 import gen_modes
 import probes
 
-DEP_FILES = ["BuildTagModel.v", "BuildTagProofs.v", "DirectiveLeftProofs.v", "AliasModel.v", "AliasProofs.v", "ScopeModel.v", "ScopeProofs.v"]
+DEP_FILES = ["BuildTagModel.v", "BuildTagProofs.v", "DirectiveLeftProofs.v", "RecogniseModel.v", "RecogniseProofs.v", "AliasModel.v", "AliasProofs.v", "ScopeModel.v", "ScopeProofs.v"]
 PID = "C13"
 
 
@@ -16,7 +16,9 @@ def run(chk):
     gen_common.apply(chk, PID)
     gen_modes.apply(chk, PID)
     corpus_common.apply(chk, PID)
-    for name, title in (("F7", "ShadowTime (a local variable named time)"), ("F8", "Nested (a directive inside a task literal of another directive)")):
+    for name, title in (("F7", "ShadowTime (a local variable named time)"), ("F8", "Nested (a directive inside a task literal of another directive)"),
+                        ("F12", "DotImport (directives spelled through a dot-import of cff)"),
+                        ("F12b", "DotMixed (a qualified directive and a dot-imported one in one file)")):
         verdict, detail = probes.run_probe(name)
         chk.count(1, key=("probe", name))
         chk.cov["correspondence"]["probe_" + name] = verdict
